@@ -430,6 +430,9 @@ func goFuncTask(t *sp.Task, p Proc) {
 			if fault == "exit_after_partial" {
 				sp.Failf("gofunc %s: injected failure after partial write", key)
 			}
+			if fault == "panic_after_partial" { // the custom function crashes with a non-error panic value
+				panic("gofunc " + key + ": injected panic after partial write")
+			}
 		}
 		fh, _ := os.OpenFile(path, os.O_APPEND|os.O_WRONLY, 0644)
 		fh.WriteString("END " + id + "\n")
